@@ -35,7 +35,13 @@ Record params := {
   p_init : nat;              (* INITIAL_CAPACITY *)
   p_growth : nat;            (* GROWTH_FACTOR *)
   p_esize : ekind -> N;      (* get_element_size *)
-  p_limit : Z                (* largest allocation (in cells) assumed to succeed *)
+  p_limit : Z;               (* largest allocation (in cells) assumed to succeed *)
+  (* two behaviours the translator MEASURES on the current code by replaying the witnesses in a sanitized child process
+     (tools/gen/gen_rtparams.py): does dyn_array_clone handle struct arrays (proposed_fixes/C20-clone-struct.diff), does the
+     emitted nl_array_slice clamp length before adding (proposed_fixes/C20-array-slice-clamp.diff).  Both are false on the
+     pinned tree; the model follows whichever code is present. *)
+  p_clone_struct_fixed : bool;
+  p_slice_clamped : bool
 }.
 
 Record dyn := {
@@ -154,9 +160,15 @@ Fixpoint copy_cells (dst src : list cell) (n : nat) {struct n} : option (list ce
             end
   end.
 
-(* dyn_array_clone: new(elem_type); reserve(new, length); memcpy; new->length = length *)
+(* dyn_array_clone: new(elem_type); [repaired code only: a struct array gets the source's elem_size and a block of its
+   own, an empty / unallocated source yields the fresh array]; reserve(new, length); memcpy; new->length = length *)
 Definition clone (P : params) (s : dyn) : res :=
-  let n0 := dyn_new P (d_kind s) in
+  let fixed_struct := p_clone_struct_fixed P && ekind_eqb (d_kind s) EStruct in
+  if fixed_struct && (Nat.eqb (d_len s) 0 || match d_data s with None => true | Some _ => false end)
+  then ROk (dyn_new P (d_kind s)) OUnit else
+  let n0 := if fixed_struct
+            then {| d_kind := EStruct; d_esize := d_esize s; d_len := 0; d_cap := p_init P; d_data := Some (repeat Uninit (p_init P)) |}
+            else dyn_new P (d_kind s) in
   match reserve P n0 (Z.of_nat (d_len s)) with
   | ROk n1 _ =>
       match d_data n1, d_data s with
@@ -223,6 +235,11 @@ Definition slice (P : params) (s : dyn) (start len : Z) : res :=
   let len1 := if (len <? 0)%Z then 0%Z else len in
   let n := Z.of_nat (d_len s) in
   let start2 := if (n <? start1)%Z then n else start1 in
+  if p_slice_clamped P then
+    (* repaired text: if (length > len - start) length = len - start; end = start + length; *)
+    let len2 := if (n - start2 <? len1)%Z then (n - start2)%Z else len1 in
+    slice_loop P s (dyn_new P (d_kind s)) (Z.to_nat start2) (Z.to_nat len2)
+  else
   if (9223372036854775807 <? start2 + len1)%Z then RCrash else   (* int64_t end = start + length overflows *)
   let e := if (n <? start2 + len1)%Z then n else (start2 + len1)%Z in
   slice_loop P s (dyn_new P (d_kind s)) (Z.to_nat start2) (Z.to_nat (e - start2)).
@@ -348,13 +365,20 @@ Definition lstep (P : params) (s : lst) (o : op) : lres :=
   | Clear => LOk (with_items s []) OUnit
   | Reserve n => if (p_limit P <? n)%Z then LExcluded else LOk s OUnit
   | Length => LOk s (OLen (length (l_items s)))
-  | Clone => if ekind_eqb (l_kind s) EStruct || (p_limit P <? Z.of_nat (length (l_items s)))%Z then LExcluded else LOk s OUnit
+  | Clone =>
+      if (ekind_eqb (l_kind s) EStruct && negb (p_clone_struct_fixed P)) || (p_limit P <? Z.of_nat (length (l_items s)))%Z then LExcluded
+      else if ekind_eqb (l_kind s) EStruct
+           then match l_items s with
+                | [] => LOk {| l_kind := EStruct; l_esize := 0; l_items := [] |} OUnit
+                | _ => LOk s OUnit
+                end
+           else LOk s OUnit
   | Slice a b =>
       let a1 := if (a <? 0)%Z then 0%Z else a in
       let b1 := if (b <? 0)%Z then 0%Z else b in
       let n := Z.of_nat (length (l_items s)) in
       let a2 := if (n <? a1)%Z then n else a1 in
-      if (9223372036854775807 <? a2 + b1)%Z then LExcluded else
+      if negb (p_slice_clamped P) && (9223372036854775807 <? a2 + b1)%Z then LExcluded else
       let e := if (n <? a2 + b1)%Z then n else (a2 + b1)%Z in
       let items := firstn (Z.to_nat (e - a2)) (skipn (Z.to_nat a2) (l_items s)) in
       match l_kind s, items with
